@@ -10,6 +10,7 @@ use crate::frames::*;
 use crate::gen::modular::{fill_channel, gen_passes_for_modular, pass_shifts_of};
 use crate::headers::*;
 use crate::modular::encode::{encode_modular_frame, FrameGeom, ModularOpts};
+use crate::models::compositor::{PatchBlend, PatchModel};
 use crate::modular::predict::Chan;
 use crate::src::Src;
 use crate::vardct::*;
@@ -36,10 +37,31 @@ pub struct VarDctGenOpts {
     pub allow_custom_orders: bool,
     pub allow_hf_lz77: bool,
     pub allow_subsampling: bool,
+    /// probability (x/256) of noise parameters (frame flag kNoise) on a frame that can carry them
+    /// (XYB with three colour channels); 0 = never
+    pub noise: u32,
+    /// probability (x/256) of a spline dictionary (frame flag kSplines); 0 = never
+    pub splines: u32,
+    /// probability (x/256) of a patch dictionary (frame flag kPatches) fed by a ReferenceOnly frame
+    /// written in front of the main frame; 0 = never
+    pub patches: u32,
+    /// probability (x/256) of taking the LF from an LF frame (flag use_lf_frame) written in front of
+    /// the main frame (only without upsampling and chroma subsampling); 0 = never
+    pub lf_frames: u32,
+    /// probability (x/256), given an LF frame, that the LF frame itself uses a level-2 LF frame
+    pub lf_two_levels: u32,
+    /// Adjudication aid, off by default (env `VERIF_VDCT_EXCLUDE=patch-alpha`): no alpha blend modes in patch
+    /// dictionaries, so that runs can look past a decoder failure that is being adjudicated.  (The same
+    /// variable also takes `noise`, `splines`, `patches`, `lf-frames` to switch a whole feature off when
+    /// narrowing a failing case down: the features draw from separate sub-sequences, so removing one leaves
+    /// the others as they were.)
+    pub exclude_patch_alpha: bool,
 }
 
 impl Default for VarDctGenOpts {
     fn default() -> Self {
+        let excluded = std::env::var("VERIF_VDCT_EXCLUDE").unwrap_or_default();
+        let excluded = |name: &str| excluded.split(',').any(|t| t == name);
         VarDctGenOpts {
             max_small_dim: 70,
             boundary: 14,
@@ -56,6 +78,12 @@ impl Default for VarDctGenOpts {
             allow_custom_orders: true,
             allow_hf_lz77: true,
             allow_subsampling: true,
+            noise: if excluded("noise") { 0 } else { 116 },
+            splines: if excluded("splines") { 0 } else { 54 },
+            patches: if excluded("patches") { 0 } else { 42 },
+            lf_frames: if excluded("lf-frames") { 0 } else { 36 },
+            lf_two_levels: 56,
+            exclude_patch_alpha: excluded("patch-alpha"),
         }
     }
 }
@@ -63,9 +91,15 @@ impl Default for VarDctGenOpts {
 pub struct VarDctCase {
     pub ih: ImageHeaderSpec,
     pub fh: FrameHeaderSpec,
-    /// complete bare codestream: one frame, is_last
+    /// complete bare codestream: the main frame (is_last), preceded by the frames it depends on
+    /// (ReferenceOnly frame for patches, LF frames) when those features were generated
     pub bytes: Vec<u8>,
+    /// layout of the main frame
     pub layout: FrameLayout,
+    /// layouts of all frames in file order; the main frame is the last one
+    pub layouts: Vec<FrameLayout>,
+    /// index of the main frame among all frames of the codestream
+    pub main_frame: usize,
     pub header_len: usize,
     pub classes: Vec<String>,
     /// the generated frame content
@@ -363,7 +397,10 @@ fn gen_order_prefix(p: &mut Pick, size: usize) -> Vec<u32> {
     v
 }
 
-fn gen_block_ctx(src: &mut Src, lf_amp: [i64; 3], hf_mul_max: u32, classes: &mut Vec<String>) -> BlockCtxSpec {
+/// `no_lf_thresholds`: the frame takes its LF from an LF frame.  Which values the LF thresholds of the
+/// block context are then compared with is not something the writer can know (there is no quantised
+/// LF image in the frame), so such frames get no LF thresholds.
+fn gen_block_ctx(src: &mut Src, lf_amp: [i64; 3], hf_mul_max: u32, no_lf_thresholds: bool, classes: &mut Vec<String>) -> BlockCtxSpec {
     if src.chance(150) {
         classes.push("blockctx:default".into());
         return BlockCtxSpec::Default;
@@ -380,6 +417,12 @@ fn gen_block_ctx(src: &mut Src, lf_amp: [i64; 3], hf_mul_max: u32, classes: &mut
     for i in (1..4).rev() {
         let j = src.below(i + 1);
         counts.swap(i, j);
+    }
+    if no_lf_thresholds {
+        counts[0] = 0;
+        counts[1] = 0;
+        counts[2] = 0;
+        prod = counts[3] + 1;
     }
     let mut lf_thr: [Vec<i32>; 3] = [vec![], vec![], vec![]];
     // `lf_amp` is in coded channel order (Y, X, B); thresholds are for X, Y, B
@@ -502,116 +545,37 @@ fn gen_dequant(src: &mut Src, o: &VarDctGenOpts, used_sets: &[bool], narrow: boo
     DequantSetSpec::PerSet(v)
 }
 
-pub fn gen_vardct_case(src: &mut Src, o: &VarDctGenOpts) -> VarDctCase {
-    let mut classes: Vec<String> = vec![];
-    // drawn first so that the decision does not starve when the choice sequence runs out
-    let permute = o.allow_permuted_toc && src.chance(48);
-    let (w, h) = gen_dims(src, o, &mut classes);
+/// What a frame body needs to know about its surroundings.
+struct BodyIn<'a> {
+    o: &'a VarDctGenOpts,
+    ih: &'a ImageHeaderSpec,
+    /// the complete frame header (flags included)
+    fh: &'a FrameHeaderSpec,
+    /// colour mode: 0 XYB, 1 stored RGB, 2 YCbCr 4:4:4, 3 YCbCr with chroma subsampling
+    mode: usize,
+    narrow: bool,
+    /// Patches / Splines / NoiseParameters bits, which open LfGlobal
+    lf_global_prefix: &'a BitWriter,
+}
 
-    // ---- image header -------------------------------------------------------
-    // colour mode: 0 XYB, 1 stored RGB (no transform), 2 YCbCr 4:4:4, 3 YCbCr with chroma subsampling
-    let mode = if o.allow_non_xyb { src.weighted(&[6, 2, 2, if o.allow_subsampling { 2 } else { 0 }]) } else { 0 };
-    classes.push(format!("colour:{}", ["xyb", "rgb", "ycbcr444", "ycbcr-subsampled"][mode]));
-    let narrow = src.bool();
-    let gray = mode == 0 && src.chance(30);
-    let bit_depth = match src.weighted(&[5, 1, 1, 1]) {
-        0 => BitDepthSpec::Int { bits: 8 },
-        1 => BitDepthSpec::Int { bits: if narrow { src.range(1, 12) as u32 } else { src.range(1, 16) as u32 } },
-        2 => BitDepthSpec::Int { bits: if narrow { 12 } else { 16 } },
-        _ => {
-            if narrow {
-                BitDepthSpec::Int { bits: 10 }
-            } else {
-                BitDepthSpec::Float { bits: 32, exp_bits: 8 }
-            }
-        }
-    };
-    let n_ec = if o.allow_ec { src.weighted(&[8, 2, 1]) } else { 0 };
-    let mut ec_info = vec![];
-    for _ in 0..n_ec {
-        let ty = match src.weighted(&[4, 2, 1]) {
-            0 => EcTypeSpec::Alpha { associated: src.bool() },
-            1 => EcTypeSpec::Depth,
-            _ => EcTypeSpec::Thermal,
-        };
-        let ebits = BitDepthSpec::Int { bits: if narrow { src.range(1, 12) as u32 } else { src.range(1, 16) as u32 } };
-        let dim_shift = if src.chance(190) { 0 } else { src.range(1, 3) as u32 };
-        ec_info.push(EcInfoSpec { ty, bit_depth: ebits, dim_shift, name: String::new() });
-    }
-    classes.push(format!("ec:{n_ec}"));
-    let colour_encoding = if gray {
-        classes.push("colour:grey".into());
-        ColourEncodingSpec::Enum { colour_space: 1, white_point: WhitePointSpec::D65, primaries: PrimariesSpec::Srgb, tf: TfSpec::Srgb, intent: 1 }
-    } else if src.chance(40) {
-        classes.push("colour:linear".into());
-        ColourEncodingSpec::Enum { colour_space: 0, white_point: WhitePointSpec::D65, primaries: PrimariesSpec::Srgb, tf: TfSpec::Linear, intent: 1 }
-    } else {
-        ColourEncodingSpec::default()
-    };
-    let ih = ImageHeaderSpec { width: w as u32, height: h as u32, bit_depth, modular_16bit_buffers: narrow, ec_info: ec_info.clone(), xyb_encoded: mode == 0, colour_encoding, ..Default::default() };
-    classes.push(format!("buffers:{}", if narrow { "16bit" } else { "32bit" }));
+struct Body {
+    /// TOC sections in logical order
+    sections: Vec<Vec<u8>>,
+    frame: VarDctFrame,
+    num_groups: usize,
+    num_lf_groups: usize,
+}
 
-    // ---- frame header -------------------------------------------------------
-    let mut fh = FrameHeaderSpec::all_default_for(&ih);
-    if !src.chance(40) {
-        fh.restoration_filter = gen_filter(src, &mut classes);
-    } else {
-        classes.push("filter:all-default".into());
-    }
-    if src.chance(100) {
-        fh.flags |= FLAG_SKIP_ADAPTIVE_LF_SMOOTHING;
-        classes.push("lf-smoothing:skipped".into());
-    }
-    if mode == 0 && src.chance(100) {
-        fh.x_qm_scale = src.range(0, 7) as u32;
-        fh.b_qm_scale = src.range(0, 7) as u32;
-        classes.push("qm-scale:custom".into());
-    }
-    if mode >= 2 {
-        fh.do_ycbcr = true;
-    }
-    if mode == 3 {
-        // (Cb, Y, Cr) modes: 1 = full resolution, 2 = full horizontally, 3 = full vertically, 0 = reduced
-        fh.jpeg_upsampling = match src.weighted(&[4, 2, 2, 2]) {
-            0 => [0, 1, 0],
-            1 => [3, 1, 3],
-            2 => [2, 1, 2],
-            _ => loop {
-                let m = [src.range(0, 3) as u32, src.range(0, 3) as u32, src.range(0, 3) as u32];
-                if m != [0; 3] {
-                    break m;
-                }
-                if src.exhausted() {
-                    break [0, 1, 0];
-                }
-            },
-        };
-        classes.push(format!(
-            "subsampling:{}",
-            match fh.jpeg_upsampling {
-                [0, 1, 0] => "420",
-                [3, 1, 3] => "422",
-                [2, 1, 2] => "440",
-                m if m.iter().all(|&x| x == m[0]) => "other/no-channel-reduced",
-                m if m[1] != 1 => "other/luma-reduced",
-                _ => "other",
-            }
-        ));
-        // adaptive LF smoothing is not defined across differently sampled channels
-        fh.flags |= FLAG_SKIP_ADAPTIVE_LF_SMOOTHING;
-    }
-    if o.allow_upsampling && src.chance(24) {
-        fh.upsampling = src.pick(&[2u32, 4, 8]);
-        // extra channels keep their own resolution relative to the colour channels
-        fh.ec_upsampling = vec![fh.upsampling; n_ec];
-        classes.push(format!("upsampling:{}", fh.upsampling));
-    }
-    if o.allow_passes {
-        fh.passes = gen_passes_for_modular(src);
-    }
+/// Content and sections of one VarDCT frame (everything after the frame header
+/// and TOC).  With `use_lf_frame` in the header's flags the LF coefficients are
+/// left out of the LF groups.
+fn gen_vardct_body(src: &mut Src, b: &BodyIn, classes: &mut Vec<String>) -> Body {
+    let (o, ih, fh, mode, narrow) = (b.o, b.ih, b.fh, b.mode, b.narrow);
+    let use_lf_frame = fh.use_lf_frame();
+    let bit_depth = ih.bit_depth;
+    let ec_info = &ih.ec_info;
     let num_passes = fh.passes.num_passes as usize;
-    classes.push(format!("passes:{num_passes}"));
-    let fg = frame_geometry(&fh, &ih);
+    let fg = frame_geometry(fh, ih);
     let (fw, fhh) = (fg.width as usize, fg.height as usize);
     let num_groups = fg.num_groups as usize;
     let num_lf_groups = fg.num_lf_groups as usize;
@@ -733,8 +697,8 @@ pub fn gen_vardct_case(src: &mut Src, o: &VarDctGenOpts) -> VarDctCase {
         }
     }
     classes.push(format!("hf-mul:{}", match max_mul { 1 => "1", 2..=16 => "2-16", _ => "17-256" }));
-    let block_ctx = gen_block_ctx(src, lf_amp_seen, hf_mul_max, &mut classes);
-    let dequant = gen_dequant(src, o, &used_sets, narrow, &mut classes);
+    let block_ctx = gen_block_ctx(src, lf_amp_seen, hf_mul_max, use_lf_frame, classes);
+    let dequant = gen_dequant(src, o, &used_sets, narrow, classes);
 
     // ---- HF presets, orders, coefficients -----------------------------------
     let max_presets = 1usize << ceil_log2(num_groups);
@@ -813,7 +777,7 @@ pub fn gen_vardct_case(src: &mut Src, o: &VarDctGenOpts) -> VarDctCase {
         pass_shifts: pass_shifts_of(&fh.passes),
     };
     let mut ec_image: Vec<Chan> = vec![];
-    for e in &ec_info {
+    for e in ec_info {
         let s = e.dim_shift;
         let cs = |v: usize| (v + (1 << s) - 1) >> s;
         let mut ch = Chan::with_shift(cs(fw), cs(fhh), s as i32, s as i32);
@@ -846,15 +810,22 @@ pub fn gen_vardct_case(src: &mut Src, o: &VarDctGenOpts) -> VarDctCase {
     // ---- write -----------------------------------------------------------------
     let vb = write_vardct_frame(src, &frame, &mo_sub);
     classes.extend(vb.classes.iter().cloned());
-    let n_entries = toc_entry_count(&fh, &ih) as usize;
+    let n_entries = toc_entry_count(fh, ih) as usize;
     let mut sections: Vec<Vec<u8>> = vec![];
+    // LfGroup: [LfCoeff unless the LF comes from an LF frame] ModularLfGroup HfMetadata
+    let lf_group_bits = |wr: &mut BitWriter, lg: usize| {
+        if !use_lf_frame {
+            wr.append(&vb.lf_groups[lg].0);
+        }
+        wr.append(&mbits.lf_groups[lg]);
+        wr.append(&vb.lf_groups[lg].1);
+    };
     if n_entries == 1 {
         let mut wr = BitWriter::new();
+        wr.append(b.lf_global_prefix);
         wr.append(&vb.lf_global);
         wr.append(&mbits.global);
-        wr.append(&vb.lf_groups[0].0);
-        wr.append(&mbits.lf_groups[0]);
-        wr.append(&vb.lf_groups[0].1);
+        lf_group_bits(&mut wr, 0);
         wr.append(&vb.hf_global);
         wr.append(&vb.pass_groups[0][0]);
         wr.append(&mbits.pass_groups[0][0]);
@@ -862,14 +833,13 @@ pub fn gen_vardct_case(src: &mut Src, o: &VarDctGenOpts) -> VarDctCase {
         classes.push("toc:single".into());
     } else {
         let mut wr = BitWriter::new();
+        wr.append(b.lf_global_prefix);
         wr.append(&vb.lf_global);
         wr.append(&mbits.global);
         sections.push(wr.finish());
         for lg in 0..num_lf_groups {
             let mut wr = BitWriter::new();
-            wr.append(&vb.lf_groups[lg].0);
-            wr.append(&mbits.lf_groups[lg]);
-            wr.append(&vb.lf_groups[lg].1);
+            lf_group_bits(&mut wr, lg);
             sections.push(wr.finish());
         }
         sections.push(vb.hf_global.clone().finish());
@@ -883,9 +853,512 @@ pub fn gen_vardct_case(src: &mut Src, o: &VarDctGenOpts) -> VarDctCase {
         }
         classes.push("toc:multi".into());
     }
+    Body { sections, frame, num_groups, num_lf_groups }
+}
+
+// ---------------------------------------------------------------------------
+// Noise, splines, patches, LF frames.  All decisions of this part come from
+// sub-sequences forked off the *tail* of the choice sequence
+// (`Src::tail_fork_bytes`): the decisions of the main frame keep their
+// positions, and a case without these features is written exactly as before
+// they existed.
+
+fn gen_noise(src: &mut Src, classes: &mut Vec<String>) -> NoiseSpec {
+    let kind = src.weighted(&[1, 3, 2, 3]);
+    let mut lut = [0u16; 8];
+    match kind {
+        0 => {}
+        1 => {
+            for v in &mut lut {
+                *v = src.range(0, 64) as u16;
+            }
+        }
+        2 => {
+            for v in &mut lut {
+                *v = src.range(700, 1023) as u16;
+            }
+            if src.bool() {
+                lut = [1023; 8];
+            }
+        }
+        _ => {
+            for v in &mut lut {
+                *v = src.range(0, 1023) as u16;
+            }
+        }
+    }
+    classes.push(format!("noise:{}", ["zero", "small", "large", "mixed"][kind]));
+    NoiseSpec { lut }
+}
+
+/// A small spline dictionary for a `fw` x `fhh` frame, or None when the frame
+/// is too small to carry one (the number of splines is limited to a quarter and
+/// the number of control points to half of the pixel count).
+fn gen_splines(src: &mut Src, fw: usize, fhh: usize, classes: &mut Vec<String>) -> Option<SplinesSpec> {
+    let pixels = fw * fhh;
+    let max_splines = (pixels / 4).min(4);
+    if max_splines == 0 {
+        return None;
+    }
+    let n = match src.weighted(&[4, 3, 2, 1]) {
+        k => (k + 1).min(max_splines),
+    };
+    // starting points count against the control-point limit in the reference decoder
+    let mut point_budget = (pixels / 2).saturating_sub(n);
+    let quant_adjust: i32 = match src.weighted(&[3, 3, 1]) {
+        0 => 0,
+        1 => src.range_i(-8, 8) as i32,
+        _ => src.range_i(-24, 24) as i32,
+    };
+    let inv_quant: f64 = if quant_adjust >= 0 { 1.0 / (1.0 + quant_adjust as f64 / 8.0) } else { 1.0 - quant_adjust as f64 / 8.0 };
+    let (w, h) = (fw as i64, fhh as i64);
+    let margin = 12i64;
+    let mut splines = vec![];
+    let mut total_points = 0;
+    for si in 0..n {
+        // the first starting point is coded unsigned; later ones may lie slightly outside the frame
+        let (sx, sy) = if si == 0 || !src.chance(40) { (src.range_i(0, w - 1), src.range_i(0, h - 1)) } else { (src.range_i(-margin, w - 1 + margin), src.range_i(-margin, h - 1 + margin)) };
+        let want = match src.weighted(&[1, 6, 4, 2]) {
+            0 => 0,
+            1 => src.range(1, 3) as usize,
+            2 => src.range(2, 8) as usize,
+            _ => 8,
+        };
+        let extra = want.min(point_budget);
+        point_budget -= extra;
+        let step = match src.weighted(&[3, 3, 1]) {
+            0 => 3,
+            1 => 14,
+            _ => 48,
+        };
+        let mut points = vec![(sx, sy)];
+        let (mut x, mut y) = (sx, sy);
+        for _ in 0..extra {
+            let mut nx = (x + src.range_i(-step, step)).clamp(-margin, w - 1 + margin);
+            let ny = (y + src.range_i(-step, step)).clamp(-margin, h - 1 + margin);
+            if (nx, ny) == (x, y) {
+                // consecutive control points must differ
+                nx = if x < w - 1 + margin { x + 1 } else { x - 1 };
+            }
+            (x, y) = (nx, ny);
+            points.push((x, y));
+        }
+        total_points += points.len();
+        // colour: DC plus a few low-magnitude AC terms; X, Y, B weights are 0.0042, 0.075, 0.07
+        let mut xyb_dct = [[0i32; 32]; 3];
+        let dc_amp = [40i64, 12, 12];
+        let dense = src.chance(24);
+        for (c, dct) in xyb_dct.iter_mut().enumerate() {
+            dct[0] = src.range_i(-dc_amp[c], dc_amp[c]) as i32;
+            if dense {
+                for v in dct.iter_mut().skip(1) {
+                    *v = src.range_i(-3, 3) as i32;
+                }
+            } else {
+                for _ in 0..src.weighted(&[3, 2, 1, 1]) {
+                    dct[1 + src.below(31)] = src.range_i(-6, 6) as i32;
+                }
+            }
+        }
+        // sigma: the dequantised DC term is q0 * inv_quant / 3 (after the sqrt(2) of the continuous
+        // IDCT); keep it between 0.25 and about 6 and every AC term small against it, so that sigma stays
+        // positive along the whole arc
+        let target_sigma = match src.weighted(&[3, 3, 1]) {
+            0 => 0.4 + src.range(0, 100) as f64 / 100.0,
+            1 => 1.0 + src.range(0, 200) as f64 / 100.0,
+            _ => 3.0 + src.range(0, 300) as f64 / 100.0,
+        };
+        let q0 = ((3.0 * target_sigma / inv_quant).round() as i32).max((0.75 / inv_quant).ceil() as i32).max(1);
+        let mut sigma_dct = [0i32; 32];
+        sigma_dct[0] = q0;
+        let mut ac_budget = q0 / 2;
+        for _ in 0..src.weighted(&[4, 2, 1]) {
+            if ac_budget == 0 {
+                break;
+            }
+            let mag = src.range(1, ac_budget.min(4) as u64) as i32;
+            let k = 1 + src.below(31);
+            if sigma_dct[k] == 0 {
+                sigma_dct[k] = if src.bool() { mag } else { -mag };
+                ac_budget -= mag;
+            }
+        }
+        splines.push(SplineSpec { points, xyb_dct, sigma_dct });
+    }
+    classes.push(format!("splines:{n}"));
+    classes.push(format!("spline-points:{}", match total_points - n { 0 => "0", 1..=4 => "1-4", 5..=12 => "5-12", _ => "13+" }));
+    if splines.iter().any(|s| s.points.len() == 1) {
+        classes.push("splines:single-point".into());
+    }
+    if splines.iter().any(|s| s.points.iter().any(|&(x, y)| x < 0 || y < 0 || x >= w || y >= h)) {
+        classes.push("splines:outside-frame".into());
+    }
+    if quant_adjust != 0 {
+        classes.push(format!("splines:quant-adjust{}", if quant_adjust < 0 { "<0" } else { ">0" }));
+    }
+    Some(SplinesSpec { quant_adjust, splines })
+}
+
+/// Frame header shared by the frames written in front of the main frame.
+fn aux_header(ih: &ImageHeaderSpec, mode: usize, frame_type: FrameTypeSpec, modular: bool) -> FrameHeaderSpec {
+    let mut fh = if modular { FrameHeaderSpec::simple_modular(ih) } else { FrameHeaderSpec::all_default_for(ih) };
+    fh.frame_type = frame_type;
+    fh.is_last = false;
+    fh.do_ycbcr = mode >= 2;
+    fh
+}
+
+/// Sections of an auxiliary frame (ReferenceOnly frame for patches, LF frame).
+/// `fh` is complete except for the fields that only matter to the chosen
+/// encoding, which are filled in here.
+fn gen_aux_frame(src: &mut Src, o: &VarDctGenOpts, ih: &ImageHeaderSpec, fh: &mut FrameHeaderSpec, mode: usize, narrow: bool, classes: &mut Vec<String>) -> Vec<Vec<u8>> {
+    if !fh.modular {
+        if src.chance(128) {
+            fh.restoration_filter = gen_filter(src, classes);
+        }
+        if src.chance(100) {
+            fh.flags |= FLAG_SKIP_ADAPTIVE_LF_SMOOTHING;
+        }
+        let prefix = BitWriter::new();
+        let body = gen_vardct_body(src, &BodyIn { o, ih, fh, mode, narrow, lf_global_prefix: &prefix }, classes);
+        return body.sections;
+    }
+    fh.group_size_shift = src.range(0, 3) as u32;
+    let fg = frame_geometry(fh, ih);
+    let (fw, fhh) = (fg.width as usize, fg.height as usize);
+    let geom = FrameGeom {
+        group_dim: fg.group_dim as usize,
+        groups_per_row: fg.groups_per_row as usize,
+        groups_per_col: (fg.num_groups / fg.groups_per_row) as usize,
+        lf_groups_per_row: fg.lf_groups_per_row as usize,
+        lf_groups_per_col: (fg.num_lf_groups / fg.lf_groups_per_row) as usize,
+        pass_shifts: pass_shifts_of(&fh.passes),
+    };
+    // colour channels: an XYB Modular frame codes Y, X, B - Y as integers scaled by the LF dequantisation
+    // factors (defaults 1/512, 1/4096, 1/256); otherwise integer samples of the image's bit depth
+    let bits = ih.bit_depth.bits();
+    let ranges: [(i64, i64); 3] = if ih.xyb_encoded { [(0, 300), (-60, 60), (-80, 80)] } else { [(0, (1i64 << bits.min(30)) - 1); 3] };
+    let mut chans: Vec<Chan> = vec![];
+    for (lo, hi) in ranges {
+        let mut c = Chan::new(fw, fhh);
+        fill_channel(src, &mut c, lo, hi);
+        chans.push(c);
+    }
+    for e in &ih.ec_info {
+        let s = e.dim_shift;
+        let cs = |v: usize| (v + (1 << s) - 1) >> s;
+        let mut ch = Chan::with_shift(cs(fw), cs(fhh), s as i32, s as i32);
+        fill_channel(src, &mut ch, 0, (1i64 << e.bit_depth.bits().min(30)) - 1);
+        chans.push(ch);
+    }
+    let mo = ModularOpts { bit_depth: bits, range_limit: if narrow { 1 << 15 } else { 1 << 31 }, allow_transforms: true, allow_squeeze: true, allow_rct: true, allow_palette: true, allow_lz77: true, allow_multiplier: false, amplitude: 64 };
+    let mbits = encode_modular_frame(src, &chans, &geom, &mo);
+    let mut wr = BitWriter::new();
+    write_lf_global_preamble_plain(&mut wr);
+    wr.append(&mbits.global);
+    let mut sections: Vec<Vec<u8>> = vec![];
+    if toc_entry_count(fh, ih) == 1 {
+        wr.append(&mbits.lf_groups[0]);
+        wr.append(&mbits.pass_groups[0][0]);
+        sections.push(wr.finish());
+    } else {
+        sections.push(wr.finish());
+        for lg in &mbits.lf_groups {
+            sections.push(lg.clone().finish());
+        }
+        sections.push(vec![]);
+        for p in &mbits.pass_groups {
+            for g in p {
+                sections.push(g.clone().finish());
+            }
+        }
+    }
+    sections
+}
+
+/// Modular coding of colour channels needs integer-valued samples; with 32-bit float samples outside XYB
+/// the coded integers would be float bit patterns, which this generator does not produce.
+fn aux_modular_ok(ih: &ImageHeaderSpec) -> bool {
+    ih.xyb_encoded || matches!(ih.bit_depth, BitDepthSpec::Int { .. })
+}
+
+/// Patch dictionary for a `fw` x `fhh` frame taking its patches from a `rw` x `rh` reference frame in
+/// `slot` (same rules as the multi-frame Modular generator: alpha blend modes only with an alpha
+/// channel, the recorded "alpha hazard" excluded).
+fn gen_patch_list(src: &mut Src, o: &VarDctGenOpts, ih: &ImageHeaderSpec, slot: usize, (rw, rh): (usize, usize), (fw, fhh): (usize, usize), classes: &mut Vec<String>) -> Vec<PatchModel> {
+    let n_ec = ih.ec_info.len();
+    let alpha_ecs: Vec<usize> = ih.ec_info.iter().enumerate().filter(|(_, e)| matches!(e.ty, EcTypeSpec::Alpha { .. })).map(|(i, _)| i).collect();
+    let can_alpha = !alpha_ecs.is_empty() && !o.exclude_patch_alpha;
+    if !alpha_ecs.is_empty() && o.exclude_patch_alpha {
+        classes.push("excluded:patch-alpha".into());
+    }
+    let np = src.range(1, 3.min((fw * fhh / 16) as u64).max(1)) as usize;
+    let mut patches = vec![];
+    for _ in 0..np {
+        let big = src.chance(40);
+        let cap = if big { 24 } else { 8 };
+        let pw = src.range(1, rw.min(fw).min(cap) as u64) as usize;
+        let ph = src.range(1, rh.min(fhh).min(cap) as u64) as usize;
+        let px0 = src.range(0, (rw - pw) as u64) as usize;
+        let py0 = src.range(0, (rh - ph) as u64) as usize;
+        let nt = src.range(1, 3) as usize;
+        let mut targets = vec![];
+        for _ in 0..nt {
+            let tx = src.range(0, (fw - pw) as u64) as i64;
+            let ty = src.range(0, (fhh - ph) as u64) as i64;
+            let mut blends = vec![];
+            for _ in 0..n_ec + 1 {
+                let a = if can_alpha { 2 } else { 0 };
+                let mode = src.weighted(&[1, 3, 2, 2, a, a, a, a]) as u32;
+                // with a single extra channel the alpha index is not signalled and means channel 0
+                let alpha_channel = if mode >= 4 { if n_ec > 1 { alpha_ecs[src.below(alpha_ecs.len())] } else { alpha_ecs[0] } } else { 0 };
+                blends.push(PatchBlend { mode, alpha_channel, clamp: if mode >= 3 { src.bool() } else { false } });
+            }
+            for j in 1..blends.len() {
+                let (a, m) = (blends[j].alpha_channel, blends[j].mode);
+                if m >= 4 && a < j - 1 && blends[a + 1].mode != 0 {
+                    blends[j] = PatchBlend { mode: 2, alpha_channel: 0, clamp: false };
+                    classes.push("excluded:patch-alpha-hazard".into());
+                }
+            }
+            targets.push((tx, ty, blends));
+        }
+        patches.push(PatchModel { ref_slot: slot, x0: px0, y0: py0, w: pw, h: ph, targets });
+    }
+    if patches.iter().any(|p| p.targets.iter().any(|t| t.2.iter().any(|b| b.mode >= 4))) {
+        classes.push("patches:alpha-modes".into());
+    }
+    if patches.iter().any(|p| p.targets.iter().skip(1).any(|t| t.2.iter().any(|b| b.mode != 0))) {
+        classes.push("patches:several-targets".into());
+    }
+    patches
+}
+
+pub fn gen_vardct_case(src: &mut Src, o: &VarDctGenOpts) -> VarDctCase {
+    let mut classes: Vec<String> = vec![];
+    // decisions about noise / splines / patches / LF frames: see the note above `gen_noise`
+    let feature_bytes = src.tail_fork_bytes(128);
+    let mut fsrc = Src::new(&feature_bytes);
+    let want_noise = fsrc.chance(o.noise);
+    let want_splines = fsrc.chance(o.splines);
+    let want_patches = fsrc.chance(o.patches);
+    let want_lf = fsrc.chance(o.lf_frames);
+    let lf_two_levels = fsrc.chance(o.lf_two_levels);
+    let aux_order_lf_first = fsrc.bool();
+    let noise_bytes = fsrc.fork_bytes(if want_noise { 64 } else { 0 });
+    let spline_bytes = fsrc.fork_bytes(if want_splines { 3072 } else { 0 });
+    let patch_bytes = fsrc.fork_bytes(if want_patches { 8192 } else { 0 });
+    let lf_bytes = [fsrc.fork_bytes(if want_lf { 8192 } else { 0 }), fsrc.fork_bytes(if want_lf { 4096 } else { 0 })];
+
+    // drawn first so that the decision does not starve when the choice sequence runs out
+    let permute = o.allow_permuted_toc && src.chance(48);
+    let (w, h) = gen_dims(src, o, &mut classes);
+
+    // ---- image header -------------------------------------------------------
+    // colour mode: 0 XYB, 1 stored RGB (no transform), 2 YCbCr 4:4:4, 3 YCbCr with chroma subsampling
+    let mode = if o.allow_non_xyb { src.weighted(&[6, 2, 2, if o.allow_subsampling { 2 } else { 0 }]) } else { 0 };
+    classes.push(format!("colour:{}", ["xyb", "rgb", "ycbcr444", "ycbcr-subsampled"][mode]));
+    let narrow = src.bool();
+    let gray = mode == 0 && src.chance(30);
+    let bit_depth = match src.weighted(&[5, 1, 1, 1]) {
+        0 => BitDepthSpec::Int { bits: 8 },
+        1 => BitDepthSpec::Int { bits: if narrow { src.range(1, 12) as u32 } else { src.range(1, 16) as u32 } },
+        2 => BitDepthSpec::Int { bits: if narrow { 12 } else { 16 } },
+        _ => {
+            if narrow {
+                BitDepthSpec::Int { bits: 10 }
+            } else {
+                BitDepthSpec::Float { bits: 32, exp_bits: 8 }
+            }
+        }
+    };
+    let n_ec = if o.allow_ec { src.weighted(&[8, 2, 1]) } else { 0 };
+    let mut ec_info = vec![];
+    for _ in 0..n_ec {
+        let ty = match src.weighted(&[4, 2, 1]) {
+            0 => EcTypeSpec::Alpha { associated: src.bool() },
+            1 => EcTypeSpec::Depth,
+            _ => EcTypeSpec::Thermal,
+        };
+        let ebits = BitDepthSpec::Int { bits: if narrow { src.range(1, 12) as u32 } else { src.range(1, 16) as u32 } };
+        let dim_shift = if src.chance(190) { 0 } else { src.range(1, 3) as u32 };
+        ec_info.push(EcInfoSpec { ty, bit_depth: ebits, dim_shift, name: String::new() });
+    }
+    classes.push(format!("ec:{n_ec}"));
+    let colour_encoding = if gray {
+        classes.push("colour:grey".into());
+        ColourEncodingSpec::Enum { colour_space: 1, white_point: WhitePointSpec::D65, primaries: PrimariesSpec::Srgb, tf: TfSpec::Srgb, intent: 1 }
+    } else if src.chance(40) {
+        classes.push("colour:linear".into());
+        ColourEncodingSpec::Enum { colour_space: 0, white_point: WhitePointSpec::D65, primaries: PrimariesSpec::Srgb, tf: TfSpec::Linear, intent: 1 }
+    } else {
+        ColourEncodingSpec::default()
+    };
+    let ih = ImageHeaderSpec { width: w as u32, height: h as u32, bit_depth, modular_16bit_buffers: narrow, ec_info: ec_info.clone(), xyb_encoded: mode == 0, colour_encoding, ..Default::default() };
+    classes.push(format!("buffers:{}", if narrow { "16bit" } else { "32bit" }));
+
+    // ---- frame header -------------------------------------------------------
+    let mut fh = FrameHeaderSpec::all_default_for(&ih);
+    if !src.chance(40) {
+        fh.restoration_filter = gen_filter(src, &mut classes);
+    } else {
+        classes.push("filter:all-default".into());
+    }
+    if src.chance(100) {
+        fh.flags |= FLAG_SKIP_ADAPTIVE_LF_SMOOTHING;
+        classes.push("lf-smoothing:skipped".into());
+    }
+    if mode == 0 && src.chance(100) {
+        fh.x_qm_scale = src.range(0, 7) as u32;
+        fh.b_qm_scale = src.range(0, 7) as u32;
+        classes.push("qm-scale:custom".into());
+    }
+    if mode >= 2 {
+        fh.do_ycbcr = true;
+    }
+    if mode == 3 {
+        // (Cb, Y, Cr) modes: 1 = full resolution, 2 = full horizontally, 3 = full vertically, 0 = reduced
+        fh.jpeg_upsampling = match src.weighted(&[4, 2, 2, 2]) {
+            0 => [0, 1, 0],
+            1 => [3, 1, 3],
+            2 => [2, 1, 2],
+            _ => loop {
+                let m = [src.range(0, 3) as u32, src.range(0, 3) as u32, src.range(0, 3) as u32];
+                if m != [0; 3] {
+                    break m;
+                }
+                if src.exhausted() {
+                    break [0, 1, 0];
+                }
+            },
+        };
+        classes.push(format!(
+            "subsampling:{}",
+            match fh.jpeg_upsampling {
+                [0, 1, 0] => "420",
+                [3, 1, 3] => "422",
+                [2, 1, 2] => "440",
+                m if m.iter().all(|&x| x == m[0]) => "other/no-channel-reduced",
+                m if m[1] != 1 => "other/luma-reduced",
+                _ => "other",
+            }
+        ));
+        // adaptive LF smoothing is not defined across differently sampled channels
+        fh.flags |= FLAG_SKIP_ADAPTIVE_LF_SMOOTHING;
+    }
+    if o.allow_upsampling && src.chance(24) {
+        fh.upsampling = src.pick(&[2u32, 4, 8]);
+        // extra channels keep their own resolution relative to the colour channels
+        fh.ec_upsampling = vec![fh.upsampling; n_ec];
+        classes.push(format!("upsampling:{}", fh.upsampling));
+    }
+    if o.allow_passes {
+        fh.passes = gen_passes_for_modular(src);
+    }
+    let num_passes = fh.passes.num_passes as usize;
+    classes.push(format!("passes:{num_passes}"));
+    let fg = frame_geometry(&fh, &ih);
+    let (fw, fhh) = (fg.width as usize, fg.height as usize);
+
+    // ---- noise, splines, patches, LF frames ------------------------------------
+    // (frame header, logical sections, permute the TOC) of the frames written in front of the main frame
+    let mut aux_frames: Vec<(FrameHeaderSpec, Vec<Vec<u8>>, bool)> = vec![];
+    let mut prefix = BitWriter::new();
+    let mut feature_debug = String::new();
+    // the reference frame comes first in the stream order of LfGlobal's parts: Patches, Splines, Noise
+    let mut ref_frame: Option<(FrameHeaderSpec, Vec<Vec<u8>>, bool)> = None;
+    if want_patches && fw * fhh >= 16 {
+        let mut psrc = Src::new(&patch_bytes);
+        let mut scratch = vec![];
+        let modular = aux_modular_ok(&ih) && psrc.bool();
+        let mut rfh = aux_header(&ih, mode, FrameTypeSpec::ReferenceOnly, modular);
+        let (rw, rh) = match psrc.weighted(&[4, 2, 2]) {
+            0 => (psrc.range(1, 24) as usize, psrc.range(1, 24) as usize),
+            1 => (8 * psrc.range(1, 5) as usize, 8 * psrc.range(1, 5) as usize),
+            _ => (w.min(96), h.min(96)),
+        };
+        if (rw, rh) != (w, h) {
+            rfh.crop = Some((0, 0, rw as u32, rh as u32));
+        }
+        let slot = psrc.range(0, 3) as usize;
+        rfh.save_as_reference = slot as u32;
+        rfh.save_before_ct = true;
+        let sections = gen_aux_frame(&mut psrc, o, &ih, &mut rfh, mode, narrow, &mut scratch);
+        let patches = gen_patch_list(&mut psrc, o, &ih, slot, (rw, rh), (fw, fhh), &mut classes);
+        crate::gen::frames::write_patches(&mut prefix, &patches, n_ec, &mut psrc);
+        fh.flags |= FLAG_PATCHES;
+        classes.push("patches".into());
+        classes.push(format!("patch-ref:{}", if modular { "modular" } else { "vardct" }));
+        if n_ec > 0 {
+            classes.push("patches:with-extra-channels".into());
+        }
+        feature_debug.push_str(&format!(" patches(ref {rw}x{rh} slot {slot} {}): {patches:?}", if modular { "modular" } else { "vardct" }));
+        ref_frame = Some((rfh, sections, psrc.chance(40)));
+    }
+    if want_splines {
+        let mut ssrc = Src::new(&spline_bytes);
+        if let Some(sp) = gen_splines(&mut ssrc, fw, fhh, &mut classes) {
+            let lz77 = if ssrc.chance(80) { Some(crate::entropy::Lz77Params::gen_min_length(&mut ssrc)) } else { None };
+            for n in write_splines(&mut prefix, &sp, lz77, &mut ssrc) {
+                classes.push(format!("splines:{n}"));
+            }
+            fh.flags |= FLAG_SPLINES;
+            feature_debug.push_str(&format!(" splines: {sp:?}"));
+        }
+    }
+    if want_noise && mode == 0 && !gray {
+        let mut nsrc = Src::new(&noise_bytes);
+        let noise = gen_noise(&mut nsrc, &mut classes);
+        write_noise(&mut prefix, &noise);
+        fh.flags |= FLAG_NOISE;
+        classes.push("noise".into());
+        feature_debug.push_str(&format!(" noise: {:?}", noise.lut));
+    }
+    let mut lf_frames: Vec<(FrameHeaderSpec, Vec<Vec<u8>>, bool)> = vec![];
+    if want_lf && fh.upsampling == 1 && mode != 3 {
+        let levels: u32 = if lf_two_levels { 2 } else { 1 };
+        // highest level first: that is the order the frames must have in the codestream
+        for level in (1..=levels).rev() {
+            let mut lsrc = Src::new(&lf_bytes[level as usize - 1]);
+            let mut scratch = vec![];
+            let uses_lf = level < levels;
+            let modular = !uses_lf && aux_modular_ok(&ih) && lsrc.bool();
+            let mut lfh = aux_header(&ih, mode, FrameTypeSpec::Lf, modular);
+            lfh.lf_level = level;
+            if uses_lf {
+                lfh.flags |= FLAG_USE_LF_FRAME;
+            }
+            let sections = gen_aux_frame(&mut lsrc, o, &ih, &mut lfh, mode, narrow, &mut scratch);
+            classes.push(format!("lf-frame:level{level}:{}", if modular { "modular" } else { "vardct" }));
+            feature_debug.push_str(&format!(" lf-frame(level {level} {})", if modular { "modular" } else { "vardct" }));
+            lf_frames.push((lfh, sections, lsrc.chance(40)));
+        }
+        fh.flags |= FLAG_USE_LF_FRAME;
+        classes.push(format!("lf-frame:{levels}"));
+    }
+    if aux_order_lf_first {
+        aux_frames.extend(lf_frames);
+        aux_frames.extend(ref_frame);
+    } else {
+        aux_frames.extend(ref_frame);
+        aux_frames.extend(lf_frames);
+    }
+
+    // ---- main frame body ----------------------------------------------------------
+    let body = gen_vardct_body(src, &BodyIn { o, ih: &ih, fh: &fh, mode, narrow, lf_global_prefix: &prefix }, &mut classes);
+    let Body { sections, frame, num_groups, num_lf_groups } = body;
+
     let mut bytes = write_codestream_start(&ih, None, src);
     let header_len = bytes.len();
+    let mut layouts = vec![];
+    for (k, (afh, asections, apermute)) in aux_frames.iter().enumerate() {
+        // header and TOC coding choices of the frames in front: their own sub-sequence
+        let mut asrc = Src::new(&feature_bytes[64 + 16 * k.min(3)..]);
+        layouts.push(write_frame(&mut bytes, afh, &ih, asections, *apermute, &mut asrc));
+    }
+    let main_frame = layouts.len();
     let layout = write_frame(&mut bytes, &fh, &ih, &sections, permute, src);
+    layouts.push(layout.clone());
     if layout.permuted {
         classes.push("toc:permuted".into());
     }
@@ -895,11 +1368,85 @@ pub fn gen_vardct_case(src: &mut Src, o: &VarDctGenOpts) -> VarDctCase {
     if num_lf_groups > 1 {
         classes.push("multi-lf-group".into());
     }
+    if main_frame > 0 {
+        classes.push(format!("frames:{}", main_frame + 1));
+    }
     classes.sort();
     classes.dedup();
     let debug = format!(
-        "frame {fw}x{fhh} groups={num_groups} lf_groups={num_lf_groups} gs={global_scale} quant_lf={quant_lf} presets={num_hf_presets} blocks={:?}",
+        "frame {fw}x{fhh} groups={num_groups} lf_groups={num_lf_groups} gs={} quant_lf={} presets={} blocks={:?}{feature_debug}",
+        frame.global_scale,
+        frame.quant_lf,
+        frame.num_hf_presets,
         frame.lf_groups.iter().map(|g| g.blocks.iter().map(|b| (b.bx, b.by, b.ty, b.hf_mul)).take(40).collect::<Vec<_>>()).collect::<Vec<_>>()
     );
-    VarDctCase { ih, fh, bytes, layout, header_len, classes, frame, num_groups, num_lf_groups, debug }
+    VarDctCase { ih, fh, bytes, layout, layouts, main_frame, header_len, classes, frame, num_groups, num_lf_groups, debug }
+}
+
+#[cfg(test)]
+mod tests {
+    use super::*;
+
+    fn pseudo(seed: u64, n: usize) -> Vec<u8> {
+        let mut s = seed | 1;
+        (0..n)
+            .map(|_| {
+                s ^= s << 13;
+                s ^= s >> 7;
+                s ^= s << 17;
+                (s >> 24) as u8
+            })
+            .collect()
+    }
+
+    /// A choice sequence without the tail-seed trailer (every sequence recorded before noise / splines /
+    /// patches / LF frames existed) produces the single-frame stream of a generator with those features off.
+    #[test]
+    fn no_trailer_means_no_new_features() {
+        let off = VarDctGenOpts { noise: 0, splines: 0, patches: 0, lf_frames: 0, ..Default::default() };
+        for k in 0..40u64 {
+            let data = pseudo(0x1234 + k, 64 + 97 * k as usize);
+            let a = gen_vardct_case(&mut Src::new(&data), &VarDctGenOpts::default());
+            let b = gen_vardct_case(&mut Src::new(&data), &off);
+            assert_eq!(a.bytes, b.bytes, "sequence {k}");
+            assert_eq!(a.layouts.len(), 1);
+            assert_eq!(a.main_frame, 0);
+            assert!(!a.classes.iter().any(|c| c == "noise" || c == "patches" || c.starts_with("splines:") || c.starts_with("lf-frame:")));
+        }
+    }
+
+    /// With the trailer every feature occurs, the layouts list one entry per frame in file order and the
+    /// frames tile the codestream after the image header.
+    #[test]
+    fn trailer_enables_features_and_layouts_tile_the_stream() {
+        let mut seen = [0usize; 4];
+        for k in 0..300u64 {
+            let mut data = pseudo(0x9876 + k, 700);
+            crate::src::append_tail_seed(&mut data, 0x5151_0000_0000 + k * 0x9e37_79b9);
+            let c = gen_vardct_case(&mut Src::new(&data), &VarDctGenOpts { multi_lf_group: 0, big_square: 0, boundary: 0, ..Default::default() });
+            for (i, name) in ["noise", "patches"].iter().enumerate() {
+                seen[i] += c.classes.iter().any(|x| x == name) as usize;
+            }
+            seen[2] += c.classes.iter().any(|x| x.starts_with("splines:")) as usize;
+            seen[3] += c.classes.iter().any(|x| x.starts_with("lf-frame:")) as usize;
+            assert_eq!(c.main_frame + 1, c.layouts.len());
+            let mut at = c.header_len;
+            for l in &c.layouts {
+                assert_eq!(l.frame_start, at);
+                assert!(l.header_end <= l.toc_end && l.toc_end <= l.frame_end);
+                let mut end = l.toc_end;
+                for &(off, size) in &l.sections {
+                    assert!(off >= l.toc_end && off + size <= l.frame_end);
+                    end = end.max(off + size);
+                }
+                assert_eq!(end, l.frame_end);
+                at = l.frame_end;
+            }
+            assert_eq!(at, c.bytes.len());
+            assert_eq!(c.layout.frame_start, c.layouts[c.main_frame].frame_start);
+            let aux = c.classes.iter().any(|x| x == "patches") as usize + c.classes.iter().find_map(|x| x.strip_prefix("lf-frame:").and_then(|r| r.parse::<usize>().ok())).unwrap_or(0);
+            assert_eq!(c.main_frame, aux);
+        }
+        assert!(seen.iter().all(|&n| n >= 10), "feature counts {seen:?}");
+    }
 }
